@@ -2,6 +2,7 @@
    tools/props/c09.py from the `ext` engine's output on every run) and the functions that run
    the MODEL (Ms/ExtModel.v) on the same inputs.  Compared inside Coq by ExtCasesCheck.v. *)
 From Verif Require Export ExtModel.
+From Verif Require LiftLimits.
 Local Open Scope N_scope.
 
 (* ---- compact constructors used by the generated data ---- *)
@@ -173,3 +174,45 @@ Definition attr_ms (c : cid) (m : ms) (field measured : N) : list N :=
   filter (fun b => covers (ms_figure (fixes_of_mask b) c m field) measured) masks16.
 Definition attr_weight (d : dshape) (measured : N) : list N :=
   filter (fun b => covers (dshape_weight (fixes_of_mask b) d) measured) masks16.
+
+(* ---- limit verdicts on directed near-limit scripts (V lines) ----
+   [validate_limits]: the size / witness-item / opcode / stack checks of
+   Miniscript::validate_non_top_level under the context's SANE parameters, in the code's order
+   (0 ok, 1 script size, 2 witness items, 3 opcode count, 4 execution stack). The stack check is
+   max_witness_stack_count + max_exec_stack_count <= 1000: the quantity C09_exec_depth_limit_partial
+   bounds the real depth by. [within]: Miniscript::within_resource_limits as modelled for C07
+   (Ms/LiftLimits.v, over the same ExtData model). *)
+Record vcase := mkV { v_ctx : cid; v_ms : ms; v_verdict : N; v_within : bool }.
+(* script size, witness items (incl. the witness script), opcodes, stack elements *)
+Definition sane_limits (c : cid) : option N * option N * option N * option N :=
+  match c with
+  | CLegacy => (Some 520, None, Some 201, None)
+  | CBare => (Some 10000, None, Some 201, None)
+  | CSegwit => (Some 3600, Some 100, Some 201, Some 1000)
+  | CTap => (None, None, None, Some 1000)
+  end.
+Definition over (o : option N) (v : N) : bool := match o with Some l => l <? v | None => false end.
+Definition validate_limits (c : cid) (m : ms) : N :=
+  let x := ext_of (cx c) m in
+  let '(lsz, lwi, lop, lst) := sane_limits c in
+  if over lsz (script_size (cx c) m) then 1 else
+  match sat_data x with
+  | None => 0
+  | Some d =>
+    if over lwi (sd_wcount d + 1) then 2 else
+    if over lop (static_ops x + sd_eops d) then 3 else
+    if over lst (sd_wcount d + sd_estack d) then 4 else 0
+  end.
+Definition lctx_of (c : cid) : Ast.ctx :=
+  match c with CBare => Ast.Bare | CLegacy => Ast.Legacy | CSegwit => Ast.Segwitv0 | CTap => Ast.Tap end.
+Definition model_within (c : cid) (m : ms) : bool :=
+  LiftLimits.within_resource_limits (lctx_of c) (fun k => 6 <=? k) m.
+Definition vcase_ok (v : vcase) : bool :=
+  (validate_limits (v_ctx v) (v_ms v) =? v_verdict v) && Bool.eqb (model_within (v_ctx v) (v_ms v)) (v_within v).
+Fixpoint limit_diag (i : N) (cases : list vcase) : list (N * N * bool) :=
+  match cases with
+  | [] => []
+  | v :: r =>
+    if vcase_ok v then limit_diag (i + 1) r
+    else (i, validate_limits (v_ctx v) (v_ms v), model_within (v_ctx v) (v_ms v)) :: limit_diag (i + 1) r
+  end.
